@@ -148,8 +148,13 @@ def match_known(v, known):
 
 
 # ------------------------------------------------------------------ files
+def out_dir():
+    """Where evidence and replay files go: /verif normally; a scratch dir during `selftest`."""
+    return os.environ.get("VERIF_OUT_DIR") or env.VERIF
+
+
 def write_replay(v, fingerprint):
-    d = os.path.join(env.VERIF, "replays", v["property"])
+    d = os.path.join(out_dir(), "replays", v["property"])
     os.makedirs(d, exist_ok=True)
     name = "%s-%s-%s.json" % (v["class"], v.get("verif_seed", 0), v.get("run_index", 0))
     path = os.path.join(d, name)
@@ -163,7 +168,7 @@ def write_replay(v, fingerprint):
 
 def write_evidence(prop, tier, seed, agg, wall_s, rule, extra=None, assumptions=(), violations=0,
                    known=()):
-    d = os.path.join(env.VERIF, "evidence")
+    d = os.path.join(out_dir(), "evidence")
     os.makedirs(d, exist_ok=True)
     cov = {
         "evaluations": agg.runs,
